@@ -41,3 +41,114 @@ pub fn vx_roundtrip_term(f: &NarseseFormat<&str>, term: &Term) -> (r: Result<Nar
     }
     r
 }
+
+/// index of a punctuation in the parser's trial order
+pub open spec fn punct_index(p: Punctuation) -> int {
+    match p { Punctuation::Judgement => 0, Punctuation::Goal => 1, Punctuation::Question => 2, Punctuation::Quest => 3 }
+}
+/// vocabulary hypothesis for "term punctuation" written alone as a whole input
+pub open spec fn rt_sent_ok(f: &NarseseFormat<&str>, l: Lay, k: int) -> bool {
+    let e = lay_text(f, l) + punct_try_order(f)[k];
+    lay_ok(f, e, l, 0) && !kw_at(e, 0, f.space.parse@) && !kw_at(e, 0, f.task.budget_brackets.0@)
+        && punct_at(f, e, lay_text(f, l).len() as int, k)
+}
+/// C01 for sentences WITHOUT stamp and truth (eternal; the empty truth or none - every question
+/// and quest as the NARS grammar writes them, and truth-less judgements / goals): format, then parse
+/// with the parser's entry sequence: the result is a Sentence whose term has the same layout, with
+/// the same punctuation, eternal, without truth
+pub fn vx_roundtrip_sentence(f: &NarseseFormat<&str>, s: &Sentence) -> (r: Result<Narsese, ParseError>)
+    requires
+        format_wf(f),
+        sentence_stamp(*s) == Stamp::Eternal, sentence_truth_empty(*s),
+        forall|l: Lay| lay_of(l, sentence_term(*s)) ==> #[trigger] rt_sent_ok(f, l, punct_index(sentence_punctuation(*s))),
+    ensures
+        r matches Ok(NarseseValue::Sentence(s2)) && same_layout(sentence_term(*s), sentence_term(s2))
+            && sentence_punctuation(s2) == sentence_punctuation(*s)
+            && sentence_stamp(s2) == Stamp::Eternal && sentence_truth_empty(s2),
+{
+    let text = f.format_sentence(s);
+    let ghost k = punct_index(sentence_punctuation(*s));
+    let ghost (a, c, d) = choose|a: Seq<char>, c: Seq<char>, d: Seq<char>|
+        text@ == Seq::<char>::empty() + #[trigger] sentence_layout(a, punct_kw(f, sentence_punctuation(*s)), c, d, f.space.format_terms@)
+        && term_out(f, sentence_term(*s), Seq::empty(), a)
+        && stamp_out(f, sentence_stamp(*s), Seq::empty(), c)
+        && truth_out(f, match sentence_truth(*s) { Some(t) => t, None => Truth::Empty }, Seq::empty(), d);
+    proof {
+        lemma_fmt_intro(f, sentence_term(*s), a);
+    }
+    let ghost l = choose|l: Lay| #[trigger] lay_of(l, sentence_term(*s)) && lay_text(f, l) == a;
+    let mut st = f.build_parse_state(&text);
+    proof {
+        assert(c.len() == 0 && d.len() == 0);
+        assert(punct_kw(f, sentence_punctuation(*s)) == punct_try_order(f)[k]);
+        assert(text@ =~= lay_text(f, l) + punct_try_order(f)[k]);
+        assert(rt_sent_ok(f, l, k));
+        assert(e_hyp(&st, l));
+        assert(sent_hyp(&st, l, k));
+    }
+    let r = from_parse_narsese((), &mut st);
+    proof {
+        assert(r matches Ok(NarseseValue::Sentence(s2)) && lay_of(l, sentence_term(*s)) && lay_of(l, sentence_term(s2)) && punct_kind(k, sentence_punctuation(s2)));
+    }
+    r
+}
+
+/// index of a tense in the parser's stamp trial order (0 is the fixed-time marker)
+pub open spec fn tense_index(s: Stamp) -> int {
+    match s { Stamp::Past => 1, Stamp::Present => 2, Stamp::Future => 3, _ => 0 }
+}
+/// vocabulary hypothesis for "term punctuation space tense" written alone as a whole input
+pub open spec fn rt_sent3_ok(f: &NarseseFormat<&str>, l: Lay, k: int, j: int) -> bool {
+    let e = lay_text(f, l) + punct_try_order(f)[k] + f.space.format_terms@
+        + f.sentence.stamp_brackets.0@ + stamp_try_order(f)[j] + f.sentence.stamp_brackets.1@;
+    let p2 = lay_text(f, l).len() + punct_try_order(f)[k].len();
+    lay_ok(f, e, l, 0) && !kw_at(e, 0, f.space.parse@) && !kw_at(e, 0, f.task.budget_brackets.0@)
+        && punct_at(f, e, lay_text(f, l).len() as int, k)
+        && spaces_end(e, f.space.parse@, p2 as int) == p2 + f.space.format_terms@.len()
+        && tense_at(f, e, (p2 + f.space.format_terms@.len()) as int, j)
+}
+/// C01 for sentences with a TENSE stamp (past / present / future) and without truth
+pub fn vx_roundtrip_sentence_tense(f: &NarseseFormat<&str>, s: &Sentence) -> (r: Result<Narsese, ParseError>)
+    requires
+        format_wf(f),
+        sentence_stamp(*s) is Past || sentence_stamp(*s) is Present || sentence_stamp(*s) is Future,
+        sentence_truth_empty(*s),
+        forall|l: Lay| lay_of(l, sentence_term(*s)) ==> #[trigger] rt_sent3_ok(f, l, punct_index(sentence_punctuation(*s)), tense_index(sentence_stamp(*s))),
+    ensures
+        r matches Ok(NarseseValue::Sentence(s2)) && same_layout(sentence_term(*s), sentence_term(s2))
+            && sentence_punctuation(s2) == sentence_punctuation(*s)
+            && sentence_stamp(s2) == sentence_stamp(*s) && sentence_truth_empty(s2),
+{
+    let text = f.format_sentence(s);
+    let ghost k = punct_index(sentence_punctuation(*s));
+    let ghost j = tense_index(sentence_stamp(*s));
+    let ghost (a, c, d) = choose|a: Seq<char>, c: Seq<char>, d: Seq<char>|
+        text@ == Seq::<char>::empty() + #[trigger] sentence_layout(a, punct_kw(f, sentence_punctuation(*s)), c, d, f.space.format_terms@)
+        && term_out(f, sentence_term(*s), Seq::empty(), a)
+        && stamp_out(f, sentence_stamp(*s), Seq::empty(), c)
+        && truth_out(f, match sentence_truth(*s) { Some(t) => t, None => Truth::Empty }, Seq::empty(), d);
+    proof {
+        lemma_fmt_intro(f, sentence_term(*s), a);
+    }
+    let ghost l = choose|l: Lay| #[trigger] lay_of(l, sentence_term(*s)) && lay_text(f, l) == a;
+    let mut st = f.build_parse_state(&text);
+    proof {
+        let tk = f.sentence.stamp_brackets.0@ + stamp_try_order(f)[j] + f.sentence.stamp_brackets.1@;
+        assert(d.len() == 0);
+        assert(c =~= tk);
+        assert(punct_kw(f, sentence_punctuation(*s)) == punct_try_order(f)[k]);
+        assert(rt_sent3_ok(f, l, k, j));
+        assert(tense_at(f, lay_text(f, l) + punct_try_order(f)[k] + f.space.format_terms@ + f.sentence.stamp_brackets.0@ + stamp_try_order(f)[j] + f.sentence.stamp_brackets.1@,
+            (lay_text(f, l).len() + punct_try_order(f)[k].len() + f.space.format_terms@.len()) as int, j));
+        assert(c.len() > 0);
+        assert(text@ =~= lay_text(f, l) + punct_try_order(f)[k] + f.space.format_terms@ + f.sentence.stamp_brackets.0@ + stamp_try_order(f)[j] + f.sentence.stamp_brackets.1@);
+        assert(e_hyp(&st, l));
+        assert(sent3_hyp(&st, l, k, j));
+    }
+    let r = from_parse_narsese((), &mut st);
+    proof {
+        assert(r matches Ok(NarseseValue::Sentence(s2)) && lay_of(l, sentence_term(*s)) && lay_of(l, sentence_term(s2))
+            && punct_kind(k, sentence_punctuation(s2)) && stamp_kind(j, sentence_stamp(s2)));
+    }
+    r
+}
